@@ -1,0 +1,22 @@
+//! Verification hook (cargo feature `verif`): entry counts of every map of this index.
+//! The exhaustive destructuring makes a new field break this build until it is accounted for.
+use super::LuaMemberIndex;
+
+impl LuaMemberIndex {
+    pub fn verif_report(&self) -> Vec<(&'static str, usize)> {
+        let Self {
+            members,
+            in_filed,
+            owner_members,
+            member_current_owner,
+        } = self;
+        vec![
+            ("member.members", members.len()),
+            ("member.in_filed", in_filed.len()),
+            ("member.in_filed.items", in_filed.values().map(|v| v.len()).sum()),
+            ("member.owner_members", owner_members.len()),
+            ("member.owner_members.items", owner_members.values().map(|m| m.get_member_len()).sum()),
+            ("member.member_current_owner", member_current_owner.len()),
+        ]
+    }
+}
